@@ -43,21 +43,55 @@ package phase0
 // the full proposer-slashing validation includes the signature-free part (by definition of the two predicates)
 //@ axiom pslash_includes_nosig: forall s SpecP, e EpcP, st StateI, p PSlashT :: {pslash_ok(s, e, st, p)} pslash_ok(s, e, st, p) ==> pslash_nosig_ok(s, p)
 
-//@ func ValidateVoluntaryExit(spec, epc, state, signedExit) err
+// process_voluntary_exit's conditions (C03): the verdict is also given a name (exit_ok) for the gossip contracts (C12)
+//@ sort VExitT = VoluntaryExit
+//@ sort CPubP = *common.CachedPubkey
+//@ sort PcPtr = *common.PubkeyCache
+//@ ufun exit_root(VExitT) RootT
+//@ func (v *VoluntaryExit) HashTreeRoot(hFn) r
 //@   trusted
 //@   opt noalloc
-//@   ensures (err == nil) == exit_ok(spec, epc, state, *signedExit)
+//@   ensures r == exit_root(*v)
+//@ func IsActive(v, epoch) (r, err)
+//@   property C03
+//@   opt noalloc
+//@   requires v != nil
+//@   ensures err == nil ==> r == (v_act(v) <= epoch && epoch < v_exit(v))
+//@   ensures err != nil ==> !r
 
+//@ func ValidateVoluntaryExit(spec, epc, state, signedExit) err
+//@   property C03
+//@   requires spec != nil && epc != nil && state != nil && signedExit != nil && epc.CurrentEpoch != nil && epc.ValidatorPubkeyCache != nil
+//@   requires caches: forall r PcPtr :: {pctrig(r)} pctrig(r) && alloc(r) ==> pc_local(r.pub2idx, r.idx2pub, r.trustedParentCount) && pc_chain(r.parent, r, r.trustedParentCount, r.parent.trustedParentCount, len(r.parent.idx2pub))
+//@   requires nolocks: forall r PcPtr :: {held(r.rwLock)} held(r.rwLock) == 0
+//@   assigns heap(CachedPubkey.decompressed)
+//@   names (err == nil) == exit_ok(spec, epc, state, *signedExit)
+//@   ensures index: err == nil ==> !st_vals_err(state) && reg_valid(st_vals(state), signedExit.Message.ValidatorIndex)
+//@   ensures active: err == nil ==> (let v := reg_val(st_vals(state), signedExit.Message.ValidatorIndex) in v_act(v) <= epc.CurrentEpoch.Epoch && epc.CurrentEpoch.Epoch < v_exit(v))
+//@   ensures not_exiting: err == nil ==> v_exit(reg_val(st_vals(state), signedExit.Message.ValidatorIndex)) == common.FAR_FUTURE_EPOCH
+//@   ensures epoch_reached: err == nil ==> signedExit.Message.Epoch <= epc.CurrentEpoch.Epoch
+//@   ensures aged: err == nil ==> (v_act(reg_val(st_vals(state), signedExit.Message.ValidatorIndex)) + spec.SHARD_COMMITTEE_PERIOD) % 18446744073709551616 <= epc.CurrentEpoch.Epoch
+//@   ensures signature: err == nil ==> !state_domain_err(state, common.DOMAIN_VOLUNTARY_EXIT, signedExit.Message.Epoch) && sig_valid(signedExit.Signature) && (exists p CPubP :: pub_valid(p.Compressed) && bls_ok(p.Compressed, seq(signing_root(exit_root(signedExit.Message), state_domain(state, common.DOMAIN_VOLUNTARY_EXIT, signedExit.Message.Epoch))), signedExit.Signature))
+
+// process_proposer_slashing's conditions (C03); verdict names pslash_nosig_ok / pslash_ok for the gossip contracts (C12)
 //@ func ValidateProposerSlashingNoSignature(spec, ps) err
-//@   trusted
+//@   property C03
 //@   opt noalloc
-//@   ensures (err == nil) == pslash_nosig_ok(spec, *ps)
+//@   requires ps != nil
+//@   names (err == nil) == pslash_nosig_ok(spec, *ps)
+//@   ensures (err == nil) == (ps.SignedHeader1.Message.Slot == ps.SignedHeader2.Message.Slot && ps.SignedHeader1.Message.ProposerIndex == ps.SignedHeader2.Message.ProposerIndex && ps.SignedHeader1.Message != ps.SignedHeader2.Message)
 
 //@ func ValidateProposerSlashing(spec, epc, state, ps) err
-//@   trusted
-//@   opt noalloc
-//@   ensures (err == nil) == pslash_ok(spec, epc, state, *ps)
-//@   ensures err == nil ==> pslash_nosig_ok(spec, *ps)
+//@   property C03
+//@   requires spec != nil && spec.SLOTS_PER_EPOCH != 0 && epc != nil && state != nil && ps != nil && epc.CurrentEpoch != nil && epc.ValidatorPubkeyCache != nil
+//@   requires caches: forall r PcPtr :: {pctrig(r)} pctrig(r) && alloc(r) ==> pc_local(r.pub2idx, r.idx2pub, r.trustedParentCount) && pc_chain(r.parent, r, r.trustedParentCount, r.parent.trustedParentCount, len(r.parent.idx2pub))
+//@   requires nolocks: forall r PcPtr :: {held(r.rwLock)} held(r.rwLock) == 0
+//@   assigns heap(CachedPubkey.decompressed)
+//@   names (err == nil) == pslash_ok(spec, epc, state, *ps)
+//@   ensures nosig: err == nil ==> pslash_nosig_ok(spec, *ps)
+//@   ensures headers: err == nil ==> ps.SignedHeader1.Message.Slot == ps.SignedHeader2.Message.Slot && ps.SignedHeader1.Message.ProposerIndex == ps.SignedHeader2.Message.ProposerIndex && ps.SignedHeader1.Message != ps.SignedHeader2.Message
+//@   ensures slashable: err == nil ==> !st_vals_err(state) && reg_valid(st_vals(state), ps.SignedHeader1.Message.ProposerIndex) && (let v := reg_val(st_vals(state), ps.SignedHeader1.Message.ProposerIndex) in !v_slashed(v) && v_act(v) <= epc.CurrentEpoch.Epoch && epc.CurrentEpoch.Epoch < v_wd(v))
+//@   ensures signatures: err == nil ==> (let dom := state_domain(state, common.DOMAIN_BEACON_PROPOSER, ps.SignedHeader1.Message.Slot / spec.SLOTS_PER_EPOCH) in !state_domain_err(state, common.DOMAIN_BEACON_PROPOSER, ps.SignedHeader1.Message.Slot / spec.SLOTS_PER_EPOCH) && sig_valid(ps.SignedHeader1.Signature) && sig_valid(ps.SignedHeader2.Signature) && (exists p CPubP :: pub_valid(p.Compressed) && bls_ok(p.Compressed, seq(signing_root(header_root(ps.SignedHeader1.Message), dom)), ps.SignedHeader1.Signature) && bls_ok(p.Compressed, seq(signing_root(header_root(ps.SignedHeader2.Message), dom)), ps.SignedHeader2.Signature)))
 
 //@ func ValidateIndexedAttestation(spec, epc, state, indexedAttestation) err
 //@   trusted
